@@ -79,7 +79,10 @@ def make_sim(kind, cfg):
         pm = "".join(list("five_stage_pipeline" if kind == "five" else "single_stage_pipeline"))
         st = RiscvArchitecturalState(pipeline_mode=pm, detect_data_hazards=cfg.get("hz", True), data_cache_options=cache_options(cfg.get("dcache")), instruction_cache_options=cache_options(cfg.get("icache")))
         return RiscvSimulation(state=st, mode=pm) if cfg["via_state"] == "matching" else RiscvSimulation(state=st)
-    return make_riscv("five" if kind == "five" else "single", hz=cfg.get("hz", True), dcache=cfg.get("dcache"), icache=cfg.get("icache"))
+    # the twins of one case are built the same way (directly or through the web front end's constructor, chosen per
+    # configuration): a defect of one construction path is that path's finding, not a lifecycle / purity difference
+    via = "webgui" if h64([kind, cfg.get("hz", True), cfg.get("dcache"), cfg.get("icache")]) % 3 == 0 else "direct"
+    return make_riscv("five" if kind == "five" else "single", hz=cfg.get("hz", True), dcache=cfg.get("dcache"), icache=cfg.get("icache"), via=via)
 
 
 def snap(kind, sim):
